@@ -6,8 +6,8 @@ import random
 from vf.ref import data
 from vf.ref import iban as R
 
-WS_VERDICT = [" ", "\t", "\n", "\r", "\f", "\v", "\u00a0"]
-WS_OTHER = ["\u2003", "\u2028", "\u3000", "\x1c", "\x1d", "\x1e", "\x1f", "\x85", "\u1680", "\u2009", "\u202f", "\u2029"]
+WS_VERDICT = [" ", "\t", "\n", "\r", "\f", "\v", "\u00a0", "\u202f", "\u2007", "\u2009", "\u3000", "\u2003", "\u2028", "\u0085", "\u1680", "\u205f"]
+WS_OTHER = ["\x1c", "\x1d", "\x1e", "\x1f"]
 
 
 def wide_alphabet() -> list[str]:
@@ -27,11 +27,50 @@ def wide_alphabet() -> list[str]:
     a += ["\u0301", "\u0308", "\u20e3", "\u200b", "\u200d", "\ufeff", "\xad", "\u202e"]
     a += WS_OTHER + ["\u00a0"]
     a += ["\ud800", "\udfff", "\U0001F600", "\uffff", "\u0100"]
+    a += compat_chars(110)
     seen, out = set(), []
     for c in a:
         if c not in seen:
             seen.add(c)
             out.append(c)
+    return out
+
+
+def compat_chars(limit: int = 160) -> list[str]:
+    """Characters whose NFKC / case mappings produce ASCII or spaces (compatibility forms, spacing accents,
+    ligatures, enclosed alphanumerics ...): a deterministic sample plus every one that yields a space."""
+    import unicodedata  # noqa: PLC0415
+
+    must, rest = [], []
+    for cp in range(0xA0, 0x3100):
+        c = chr(cp)
+        n = unicodedata.normalize("NFKC", c)
+        if n == c:
+            continue
+        if " " in n:
+            must.append(c)
+        elif any(ord(x) < 128 for x in n):
+            rest.append(c)
+    step = max(1, len(rest) // max(1, limit - len(must)))
+    return must + rest[::step]
+
+
+TOKENS = ["IBAN", "BBAN", "SWIFT", "BIC", "NONE", "NULL", "TRUE", "TEST", "XXX", "NAN", "INF", "E10", "0X1F", "0E0"]
+
+
+def token_bbans(spec: dict, rng: random.Random) -> list[str]:
+    """Structure-conforming BBANs that start or end with a vocabulary token, one per token and place that
+    the position classes allow."""
+    cls = R.position_classes(spec["bban_spec"])
+    out = []
+    if not cls:
+        return out
+    for t in TOKENS + [spec.get("country", "") * 2]:
+        for start in (0, len(cls) - len(t)):
+            if t and 0 <= start and start + len(t) <= len(cls) and all(ch in cls[start + i] for i, ch in enumerate(t)):
+                b = list(random_bban(spec, rng))
+                b[start : start + len(t)] = list(t)
+                out.append("".join(b))
     return out
 
 
@@ -71,6 +110,10 @@ def valid_ibans(country: str, spec: dict, rng: random.Random, k: int) -> list[st
     for i in range(k):
         style = STYLES[i] if i < len(STYLES) and i > 0 else "uniform"
         out.append(R.make_iban(country, random_bban(spec, rng, style)))
+    if k >= 6:
+        # vocabulary tokens inside the BBAN (dictionary fuzzing): IBAN..., ...XXX, country code doubled
+        for tb in token_bbans(spec, rng):
+            out.append(R.make_iban(country, tb))
     return out
 
 
